@@ -446,7 +446,10 @@ PROPERTIES = {
         "rule": "load/mixed+bytes: valid generated scripts in random layouts, 1-3 byte/line/fragment-level mutations of them (delete, overwrite, swap, truncate, duplicate, unbalanced if, mixed tabs and spaces), fragment assemblies and raw bytes incl. NUL and invalid UTF-8; every case split across 0-3 readers (none, at node boundaries, anywhere, plus a valid second reader) with seed strings over valid and invalid alphabets, empty and wrapping int64; distinct by (oracle values, outcome)",
         "leanchecker": ["Ysgo.Props.C05"],
     },
-    "C06": runprop("faults", (), (), 2000, 80000, nontrivial=lambda obs, case: sum(1 for o in obs if obs_kind(o) == "ERR") >= 2 and any(obs_kind(o) in ("L", "O") for o in obs),
+    "C06": runprop("faults", (), (), 2000, 80000,
+                   extra_streams=[{"stream": "bridge", "profile": "sample", "quick": 5000, "thorough": 100000, "predicate": no_panic,
+                                   "nontrivial": lambda obs, case: any(o.startswith("REG OK") for o in obs)}],
+                   nontrivial=lambda obs, case: sum(1 for o in obs if obs_kind(o) == "ERR") >= 2 and any(obs_kind(o) in ("L", "O") for o in obs),
                    rule="run/faults: valid scripts in which every expression position holds a faulty expression with probability 1/2 (ill-typed operations, unknown names, null, value-less functions, dice(0), inverted ranges, NaN/Inf arguments); compared: result class only; predicate: no panic; non-trivial = at least two errors and an element after which the runner was still usable",
                    leanchecker=["Ysgo.Props.C06"]),
     "C07": runprop("snap", ("res", "v", "vis"), ("text", "dis"), 1200, 50000, predicate=both(no_panic, snapshots_immutable),
